@@ -455,3 +455,21 @@ class shape_of_nodes:
         result == [self.domains[n.label.name].size() for n in x] and same_interp_state(self))}
     raises = {"KeyError": lambda self, x: exists(
         lambda j: 0 <= j and j < len(x) and x[j].label.name not in self.domains, "int")}
+
+
+@contract("fggs.fggs.LabelingMixin.nonterminals")
+class nonterminals:
+    sig = {"self": "LabelTable"}
+    properties = ["C16", "C19"]
+    ensures = {"exactly_the_nonterminals": lambda self, result: (
+        forall(lambda l: (l in result) == (l in vals(self._edge_labels) and l.is_nonterminal), "EdgeLabel")
+        and self._edge_labels == old(self._edge_labels))}
+
+
+@contract("fggs.fggs.LabelingMixin.terminals")
+class terminals:
+    sig = {"self": "LabelTable"}
+    properties = ["C16"]
+    ensures = {"exactly_the_terminals": lambda self, result: (
+        forall(lambda l: (l in result) == (l in vals(self._edge_labels) and l.is_terminal), "EdgeLabel")
+        and self._edge_labels == old(self._edge_labels))}
